@@ -79,6 +79,7 @@ class Tensor:
         self.gdeps = gdeps
         self.rows = rows  # optional: fn(*batch_idx) -> z3 ROW term (last axis = features)
         self.name = name
+        self.np_strict = False  # NumPy array: out-of-range integer indexing raises IndexError
 
     # -- basics ---------------------------------------------------------
     @property
@@ -86,7 +87,20 @@ class Tensor:
         return len(self.shape)
 
     def at(self, *idx):
-        """element as a python value / Sym"""
+        """element as a python value / Sym (memoised per index tuple: the
+        element functions are pure, and sharing avoids re-evaluating a lazily
+        defined operand once per use)"""
+        memo = self.__dict__.setdefault("_memo", {})
+        key = tuple(i if isinstance(i, int) else C.to_z3(i).get_id() for i in idx)
+        hit = memo.get(key)
+        if hit is not None:
+            return hit[0]
+        v = self._at(*idx)
+        if len(memo) < 5000:
+            memo[key] = (v, idx)
+        return v
+
+    def _at(self, *idx):
         v = self.fn(*idx)
         if isinstance(v, z3.ExprRef):
             v = Sym(v)
@@ -291,7 +305,9 @@ def elementwise(f, *ts, sort=None):
         # probe the sort with skolem indices
         probe = fn(*[z3.Int(f"probe!{k}") for k in range(n)])
         sort = sort_of_value(probe)
-    return unwrap0(Tensor(shape, fn, sort, gd))
+    r = Tensor(shape, fn, sort, gd)
+    r.np_strict = any(t.np_strict for t in ts)
+    return unwrap0(r)
 
 
 def tensor_binop(op, a, b):
@@ -359,10 +375,7 @@ def scalar_fn(name, x, E=None):
             return r
     xz = C.as_real(x)
     y = f(xz)
-    ax = AXIOMS.get(name)
-    if ax is not None:
-        for a in ax(xz, y):
-            pst.assume(a)
+    # point axioms (AXIOMS[name]) are added per query by state.theory_axioms
     return Sym(y, C.gdeps_of(x))
 
 
@@ -796,7 +809,9 @@ def index(t: Tensor, idx):
                     ao = full[adv_pos: adv_pos + n_adv]
                     src.append(a.at(*_bidx(a, n_adv, ao)))
             return t.rows(*[C.to_z3(x) for x in src[:-1]])
-    return unwrap0(Tensor(out_shape, fn, t.sort, t.gdeps, rows=rows))
+    r = Tensor(out_shape, fn, t.sort, t.gdeps, rows=rows)
+    r.np_strict = t.np_strict
+    return unwrap0(r)
 
 
 def squeeze(t, axis=None):
